@@ -5,6 +5,8 @@ CONTRACT_MODULES = ["contracts.sorting", "contracts.refcount", "contracts.tasks"
 FUNCTIONS = ["Manager.freeze_tree", "Manager.unfreeze_tree", "Manager.register", "Manager.unregister",
              "Manager.register@protocol", "Manager.refresh", "Manager.load", "Manager.set_value",
              "Manager.copy_expr_from", "ExprTask.__init__"]
+# after a thawed refresh the indices equal F(registered tasks) (C03)
+BORROW = [("C03", ["Manager.refresh@rebuild", "Manager.register@rebuild"])]
 RAC = "rac/c17.py"
 RAC_BUDGET = {"quick": 60, "thorough": 900}
 RAC_MIN = {"quick": 2741, "thorough": 2741}      # fewer run-time evaluations than this = the harness skipped its work: checker broken, not "held"
@@ -25,8 +27,8 @@ ASSUMPTIONS = [
     "user-level failures are modelled as one exception class UserError; the verified methods contain no handler",
     "copy_expr_from: decided syntactically (receiver reached only through self.load and a read of self.containers)",
     "in-place operators and __setitem__/__setattr__ of refs reduce to Manager.set_value (C04 contracts)",
-    "refresh: IdxWF after a thawed refresh is a bounded (run-time) clause of C03; proved here: frozen => raises first, "
-    "definitions and flag unchanged otherwise",
+    "refresh: proved here: frozen => raises first, definitions and flag unchanged otherwise; IdxWF after a thawed refresh is "
+    "proved as Manager.refresh@rebuild (borrowed from C03)",
 ]
 BOUNDED = ["query answers (_expr, tartasks, find_deps) and 'behaves as if never frozen' after unfreeze: run-time only "
            "(they are functions of tasks/indices/flag, which are proved unchanged)"]
